@@ -145,6 +145,12 @@ def run(tier, seed):
             ls.append(rnd.choice(base_lines) if k < 0.45 else ("" if k < 0.6 else (";" + gen_stem(rnd) if k < 0.65 else rnd.choice(corrupt))))
         ls.append(rnd.choice(base_lines))
         files.append(ls)
+    # big files (tens of kilobytes: any internal buffer size is crossed many times, at every alignment of the multi-byte characters)
+    for k in range(3 if tier == "quick" else 30):
+        ls = [";" + "x" * k]                      # shifts the alignment of everything that follows by one byte per file
+        for _ in range(rnd.randint(700, 1200)):
+            ls.append(rnd.choice(base_lines) if rnd.random() < 0.95 else rnd.choice(corrupt))
+        files.append(ls)
     fread = harness_parallel([{"op": "dic_readall", "content": "\n".join(ls)} for ls in files])
     flat_lines = sorted({l for ls in files for l in ls})
     lp = dict(zip(flat_lines, harness_parallel([{"op": "dic_parse", "line": l} for l in flat_lines])))
